@@ -7,6 +7,7 @@ CONSTANTS
   DupTerm = TRUE
   ParentKill = TRUE
   ClearFirst = FALSE
+  NarrowExcept = FALSE
 INVARIANT TypeOK
 INVARIANT Inv_Reaped
 INVARIANT Inv_ParentsKnow
